@@ -98,8 +98,13 @@ class BaseSQLURLTable(BaseURLTable):
             column_names = set()
 
             for url, url_properties, url_data in new_urls:
+                # parent_url and root_url are bind parameters of the INSERT
+                # below; they need a value in every row even if no row of
+                # the batch carries them.
                 row_values = {
                     'url': url,
+                    'parent_url': None,
+                    'root_url': None,
                 }
 
                 if url_properties:
